@@ -175,6 +175,7 @@ def run(ctx):
     split(ctx, fb)
     carry_order(ctx, fb)
     chunks(ctx, fb)
+    fold_resume(ctx, fb)
 
 
 
@@ -291,3 +292,82 @@ def chunks(ctx, fb):
             ctx.inst(R, 'split-clamped:%s' % which, ok3, 'the split position chunk_size * index is clamped to the axis size' if ok3 else
                      'split_at does not clamp chunk_size * index to the axis size: splitting at len() panics when the last chunk is short', f.loc())
     ctx.floor(R, 'AxisChunks / AxisChunksMut methods deciding the remainder', n, 8)
+
+
+
+def fold_resume(ctx, fb):
+    """OffsetsBase::fold resumes a partially consumed iterator: each nested loop starts at the saved position of its
+    dimension, which is right only for the *first* pass - every later pass must start at 0.  For each `start..size` Range
+    re-created inside an enclosing loop, a non-zero start must be reset within that enclosing loop: either the start is read
+    (IterPos::index) inside the enclosing loop and the same position gets set_index(0) there, or it is a local that is
+    assigned 0 inside the enclosing loop.  A start computed once outside the loop and never reset makes every later pass
+    skip the same prefix (rows skipped, and - since fold stops only when the remaining count reaches zero - elements
+    beyond the end yielded: duplicates across split halves, aliased &mut in parallel iter_mut)."""
+    R = 'C07.fold-resume'
+    fs = [x for x in fb.fns(crate='rten_tensor') if x.has_mir() and re.search(r'iterators::OffsetsBase as core::iter::traits::iterator::Iterator>::fold$', x.path)]
+    if not ctx.anchor(R, 'OffsetsBase::fold', len(fs) == 1):
+        return
+    f = fs[0]
+    loops = dict(f.loops())
+    n = 0
+    for i, b in enumerate(f.bbs):
+        if b.get('c') or i not in f.live():
+            continue
+        for st in b['s']:
+            if not (st[0] == '=' and st[2][0] == 'agg' and str(st[2][2]).endswith('ops::range::Range') and len(st[2][4]) == 2):
+                continue
+            enc = [h for h in f.in_loop(i)]
+            if not enc:
+                continue       # not re-created per pass
+            # innermost enclosing loop
+            h = min(enc, key=lambda x: len(loops[x]))
+            body = loops[h]
+            start = st[2][4][0]
+            if op_int(start) == 0:
+                continue
+            n += 1
+            og = f.origins(start)
+            ok, why = False, 'start of unrecognised provenance'
+            idx_calls = [o for o in og if o[0] == 'call' and (o[1] or '').endswith('IterPos::index')]
+
+            def local_reset(op):
+                root = op_local(op)
+                for _ in range(4):
+                    d = f.defs().get(root, [])
+                    if len(d) == 1 and d[0][2] == 'rv' and d[0][3][0] == 'use' and op_local(d[0][3][1]) is not None:
+                        root = op_local(d[0][3][1])
+                    else:
+                        break
+                return any(d[2] == 'rv' and d[3][0] == 'use' and op_int(d[3][1]) == 0 and d[0] in body for d in f.defs().get(root, []))
+            if local_reset(start):
+                ok, why = True, 'start is a local that is assigned 0 inside the enclosing loop after the first pass'
+            elif idx_calls:
+                in_body = [o for o in idx_calls if o[2] in body]
+                if len(in_body) == len(idx_calls):
+                    # the same position is set to 0 inside the enclosing loop
+                    recv = set()
+                    for o in in_body:
+                        for c in f.calls():
+                            if c.bb == o[2]:
+                                recv |= {x for x in f.origins(c.args[0]) if x[0] in ('param', 'call', 'const')}
+                    resets = [c for c in f.calls() if (c.callee or '').endswith('IterPos::set_index') and c.bb in body and op_int(c.args[1]) == 0
+                              and ({x for x in f.origins(c.args[0]) if x[0] in ('param', 'call', 'const')} & recv or not recv)]
+                    ok = bool(resets)
+                    why = 'start = pos.index() read inside the enclosing loop, and that position is set_index(0) there' if ok else 'the position read for the start is never reset to 0 inside the enclosing loop'
+                else:
+                    why = 'the saved position is read once outside the enclosing loop and never refreshed: every pass resumes at the same index'
+            else:
+                l = op_local(start)
+                root = l
+                for _ in range(4):
+                    d = f.defs().get(root, [])
+                    if len(d) == 1 and d[0][2] == 'rv' and d[0][3][0] == 'use' and op_local(d[0][3][1]) is not None:
+                        root = op_local(d[0][3][1])
+                    else:
+                        break
+                ds = f.defs().get(root, [])
+                zero_in_body = any(d[2] == 'rv' and d[3][0] == 'use' and op_int(d[3][1]) == 0 and d[0] in body for d in ds)
+                ok = zero_in_body
+                why = 'start is a local that is assigned 0 inside the enclosing loop after the first pass' if ok else 'start is computed once and never reset to 0 inside the enclosing loop: every pass resumes at the same index'
+            ctx.inst(R, 'range-start-reset#%d' % n, ok, why if ok else why + ' (rows are skipped on every later pass and the fold, which ends only on its element count, runs past the end)', f.loc(st[3] if len(st) > 3 and isinstance(st[3], int) else None))
+    ctx.floor(R, 'resumable nested loops in OffsetsBase::fold', n, 2)
